@@ -259,6 +259,59 @@ def run(db, tier):
         ok = _ternary_rule(m)
         rep.check(ok, "R-WALKERS", "ternary|%s" % f.id, f.loc, "%s: Int(0) selects the right branch, any other int the left" % what,
                   "%s: ternary selection is not `Int(0) => right, Int(_) => left`" % what)
+    # ---------------- R-FOLD-SCHEME: what the simplifier may replace a node with (symbolic evaluation of visit_expr)
+    from rules import symeval as SY
+    rep.rule("R-FOLD-SCHEME", "const_simplify replaces an expression node only by (a) the cached value of a const variable / enum const (with the sigil "
+                              "cast), (b) const_eval of an operator over operands that are ALL constant, (c) the selected branch of a ternary whose "
+                              "condition is a constant integer; children are simplified first; nothing else rewrites a node (an algebraic shortcut "
+                              "such as `x + 0 -> x` is not value-preserving for floats: -0.0 + 0.0 is +0.0)")
+    SY.set_aliases([])
+    ve = db.fn("<passes::const_simplify::Visitor<'_, '_> as ast::mut_::VisitMut>::visit_expr")
+    rep.fn(ve)
+    paths = [p_ for p_ in SY.fn_paths(db, ve.id, effect_calls=("walk_expr", "ErrorFlag::set")) if p_[2] is None]
+    got = set()
+    post_order = True
+    for conds, events, fl, st in paths:
+        arm = None
+        cdesc = []
+        for k, v, _ in conds:
+            if k.startswith("match e {"):
+                arm = v
+            else:
+                cdesc.append("%s=%s" % (k, v))
+        evs = [SY.render_event(e) for e in events]
+        if not evs or not evs[0].startswith("effect walk_expr(self, e)"):
+            post_order = False
+        for e in evs:
+            if e.startswith("store e.value = "):
+                got.add((arm, e[len("store e.value = "):], "; ".join(sorted(cdesc))))
+    rep.check(post_order and len(paths) >= 12, "R-FOLD-SCHEME", "visit_expr|children first", ve.loc, "every path simplifies the children before looking at the node (%d paths)" % len(paths),
+              "some path of visit_expr rewrites a node before its children were simplified")
+    want = {
+        ("Var", 'expect(cast_by_ty_sigil(get_cached_value(self.ctx.consts, expect_def(self.ctx.resolutions, e.Var.0.name.ident)).Some.0, e.Var.0.ty_sigil), "shoulda been type-checked")'),
+        ("EnumConst", "get_cached_value(self.ctx.consts, expect_def(self.ctx.resolutions, e.ident)).Some.0"),
+        ("UnOp", "const_eval(e.UnOp.0, to_const(e.UnOp.1).Some.0).Some.0"),
+        ("BinOp", "const_eval(e.BinOp.1, to_const(e.BinOp.0).Some.0, to_const(e.BinOp.2).Some.0).Some.0"),
+        ("Ternary", "e.right"), ("Ternary", "e.left"),
+    }
+    got2 = set((a, v) for a, v, c in got)
+    for a, v in sorted(want):
+        rep.check((a, v) in got2, "R-FOLD-SCHEME", "visit_expr|%s -> %s" % (a, v[:50]), ve.loc, "present", "const_simplify no longer replaces a %s node by %s" % (a, v))
+    extra = sorted(got2 - want)
+    rep.check(not extra, "R-FOLD-SCHEME", "visit_expr|no other rewrite", ve.loc, "no rewrite besides the six above",
+              "const_simplify also rewrites: %s" % [(a, v[:120]) for a, v in extra])
+    conds_ok = True
+    why = ""
+    for a, v, c in got:
+        if a == "BinOp" and "(to_const(e.BinOp.0), to_const(e.BinOp.2)) is (Some,Some)=True" not in c:
+            conds_ok, why = False, "a BinOp is folded under [%s]: not both operands are known constants" % c
+        if a == "UnOp" and "is_none(to_const(e.UnOp.1))=False" not in c:
+            conds_ok, why = False, "a UnOp is folded under [%s]" % c
+        if a == "Ternary" and v == "e.right" and "-> Some(Int(0))" not in c and "=Some(Int(0))" not in c:
+            conds_ok, why = False, "the false branch of a ternary is selected under [%s]" % c
+        if a == "Ternary" and v == "e.left" and "=Some(Int)" not in c:
+            conds_ok, why = False, "the true branch of a ternary is selected under [%s]" % c
+    rep.check(conds_ok, "R-FOLD-SCHEME", "visit_expr|conditions", ve.loc, "operators fold only over constant operands; ternaries select on a constant integer condition", why)
     return rep
 
 
